@@ -81,8 +81,8 @@ let rec print (t : ty) (v : value) (buf : Buffer.t) (first : bool ref) : unit =
 
 let show t v = let b = Buffer.create 256 in print t v b (ref true); Buffer.contents b
 
-(* the harness limits: 1 GiB memory budget, 2^32 spins = hang *)
-let cfg = { budget = n_of_hex "40000000"; hang_bound = n_of_hex "100000000" }
+(* the harness limit: 1 GiB memory budget *)
+let cfg = n_of_hex "40000000"   (* budget; a one-field record extracts to its field *)
 
 let class_of (r : 'a res) (ok : 'a -> string) : string =
   match r with
@@ -91,7 +91,6 @@ let class_of (r : 'a res) (ok : 'a -> string) : string =
   | Err (EMalformed, _, _) -> "err malformed"
   | Panic -> "panic"
   | Oom -> "oom"
-  | Hang -> "hang"
   | OutOfFuel -> "OUTOFFUEL"
 
 let eval (op : string) (a : string list) : string =
@@ -121,6 +120,7 @@ let eval (op : string) (a : string list) : string =
     let f = bytes_of_hex f in
     class_of (read_response cfg m.ms_flex m.ms_ty f)
       (fun (c, v') -> "ok " ^ hex_of_z c ^ " " ^ show m.ms_ty v')
+  | "decrec", _ -> "impl-only"
   | "nschemas", [] -> string_of_int (Array.length schema_arr)
   | _ -> "BADCASE"
 
